@@ -624,6 +624,94 @@ func runC09(t *testing.T, r *kit.Run) {
 			return
 		}
 	}
+	objsOf := func(es []exp) []osm.Object {
+		var o []osm.Object
+		for _, e := range es {
+			o = append(o, e.obj)
+		}
+		return o
+	}
+	// the offsets also hold after a Scan that returned false (end of input, or a cancelled scan): the reported
+	// count is the start of an existing block, never before the block of the most recently returned object, and no
+	// undelivered object lies before it; resuming there yields exactly the objects from that block on
+	blockAt := func(x int64) int {
+		for bi, b := range f.Blocks {
+			if int64(b.Offset) == x {
+				return bi
+			}
+		}
+		if x == 0 {
+			return -1 // start of the stream (header block)
+		}
+		return -2
+	}
+	checkStopOffset := func(tag string, delivered int, x int64, d string) (int, bool) {
+		bx := blockAt(x)
+		if bx == -2 {
+			r.Out.Violate("C09/"+tag+"/offset-is-not-the-start-of-a-block", "%s: after %d delivered objects FullyScannedBytes=%d, which is not the offset of any block (blocks start at %v)", d, delivered, x, func() []int {
+				var o []int
+				for _, b := range f.Blocks {
+					o = append(o, b.Offset)
+				}
+				return o
+			}())
+			return 0, false
+		}
+		if delivered > 0 && bx < want[delivered-1].block {
+			r.Out.Violate("C09/"+tag+"/offset-before-last-returned-object", "%s: after %d delivered objects (last in block %d) FullyScannedBytes=%d is block %d", d, delivered, want[delivered-1].block, x, bx)
+			return 0, false
+		}
+		if delivered < len(want) && want[delivered].block < bx {
+			r.Out.Violate("C09/"+tag+"/offset-skips-undelivered-objects", "%s: after %d delivered objects FullyScannedBytes=%d (block %d) but the next undelivered object is in block %d", d, delivered, x, bx, want[delivered].block)
+			return 0, false
+		}
+		return bx, true
+	}
+	if _, ok := checkStopOffset("end-of-input", len(full.objs), full.endOffs[0], desc+"; after the final Scan()==false"); ok {
+		r.Out.Probe("offset-read-after-end-of-input")
+	}
+	for n := 0; n < 2 && len(want) > 1; n++ {
+		k := r.Tape.Draw(len(want))
+		mode := 1 + r.Tape.Draw(2)
+		dq := int64(1) << uint(r.Tape.Draw(14))
+		p2 := drawProcs(r.Tape)
+		sched := r.Sched
+		sched.Seed = kit.Mix(r.Sched.Seed + 977*uint64(n+1))
+		st := runScan(t, scanCfg{data: f.Data, procs: p2, cut: -1, errAt: -1, sched: sched, tape: r.Tape, skip: skip, maxObj: len(want) + 20, trace: r.Replay,
+			stopAfter: k, stopMode: mode, cancelDelayQ: dq})
+		addSim(r.Out, &st, wl^uint64(k)<<24^uint64(mode)<<40, true)
+		r.Out.Fault([]string{"", "cancel-by-scanning-goroutine", "cancel-by-second-goroutine"}[mode])
+		d2 := fmt.Sprintf("%s; cancelled (mode %d, after k=%d / delay %d quanta) with %d decoders, %d objects delivered", desc, mode, k, dq, p2, len(st.objs))
+		if !checkProcess(r.Out, "C09/after-cancel", &st, d2) {
+			continue
+		}
+		if m := sameObjs(objsOf(want[:min(len(st.objs), len(want))]), st.objs); m != "" || len(st.objs) > len(want) {
+			continue // what a cancelled scan delivers is C07's and C02's business
+		}
+		bx, ok := checkStopOffset("after-cancel", len(st.objs), st.endOffs[0], d2)
+		if !ok {
+			r.Out.Trace = st.sim.Trace
+			continue
+		}
+		if len(st.objs) < len(want) {
+			r.Out.Probe("offset-read-after-cancelled-scan")
+		}
+		var rest []osm.Object
+		for _, w := range want {
+			if w.block >= bx {
+				rest = append(rest, w.obj)
+			}
+		}
+		rs := runScan(t, scanCfg{data: f.Data[st.endOffs[0]:], procs: drawProcs(r.Tape), cut: -1, errAt: -1, sched: kit.SchedCfg{Seed: kit.Mix(sched.Seed + 1), Flat: sched.Flat}, tape: r.Tape, skip: skip, maxObj: len(want) + 20})
+		addSim(r.Out, &rs, wl^uint64(k)<<24^uint64(mode)<<40^1, true)
+		if !checkProcess(r.Out, "C09/resume-after-cancel", &rs, d2) {
+			continue
+		}
+		if m := sameObjs(rest, rs.objs); m != "" || rs.err != nil {
+			r.Out.Violate("C09/resume-after-cancel/wrong-objects", "%s; resumed at %d: %s (err=%v)", d2, st.endOffs[0], m, rs.err)
+		}
+	}
+
 	// crash after k objects, restart from the persisted offset
 	ks := map[int]bool{0: true, len(want): true}
 	if len(want) > 0 {
